@@ -34,7 +34,7 @@ def GraphColoringFormula(G, colors, functional=True, formula_class=CNF):
     G = Graph.normalize(G, 'G')
 
     # Describe the formula
-    description = "Graph {}-Colorability of {}".format(colors,G)
+    description = "Graph {}-Colorability of {}".format(colors,G.name)
     F = formula_class(description=description)
     col = F.new_mapping(G.order(), colors,label='x_{{{0}{1}}}')
 
